@@ -1111,7 +1111,7 @@ def _setup_inv(E, i):
 def register_setup(reg):
     from pyvc.lib import LIB, LIB_DOC
     LIB['pandas.DataFrame'] = _pd_dataframe
-    LIB_DOC['pandas.DataFrame(index=range(n), columns=names)'] = 'n rows labelled 0..n-1 (RangeIndex), the named columns, every cell NaN'
+    LIB_DOC['pandas.DataFrame'] = 'pd.DataFrame(index=range(n), columns=names): n rows labelled 0..n-1 (RangeIndex), the named columns, every cell NaN'
     reg.add(Contract(
         f'{CHUNK}._get_cluster_ids', properties=('C05', 'C01'),
         result=_cluster_ids_result,
